@@ -38,6 +38,19 @@
 //!   whose (sequence, modifications, nterm, cterm) was already seen (`ndup`), number of entries whose mass is
 //!   below its predecessor's or whose protein list is not strictly increasing (`nbad`), and an FNV-1a digest of
 //!   the canonical content (peptides, sorted fragments, min_value).
+//!
+//!   chunkdb <k> <seed> <drop 0|1> <kfree 0|1> <the arguments of db8>
+//!     -> panic
+//!      | ok <npep> {peptide as in db8}*npep F <nfrag> [frag=1: pairs]
+//!           shuf <orders tried> <that differ>  pool <pools tried> <that differ>  ksz <chunk sizes tried> <that differ>
+//!   The chunked PREFILTER path of sage-cli (`Runner::prefilter_peptides`) through the public API:
+//!   `Fasta::parse` -> `iter_chunks(k)` -> per chunk `Parameters::build` -> of each chunk's peptides a subset
+//!   (drop = 1: entry i of chunk c is dropped iff (7 i + 3 c + seed) % 4 == 0; the real prefilter keeps what
+//!   matched a spectrum) -> concatenated in an arbitrary order (shuffled from `seed`; the real code collects from
+//!   a HashSet) -> `Parameters::reorder_peptides` -> `build_from_peptides`. `k = 0` panics (`chunks(0)`).
+//!   shuf: the same with other concatenation orders (chunk order, reversed, 3 more shuffles);
+//!   pool: the same inside rayon pools of 1, 2, 4, 8 threads; ksz (only when kfree = 1, i.e. the request has no
+//!   decoys at all and is not semi-enzymatic, drop = 0): chunk sizes 1, 2, 3, n-1, n, n+1 give the same content.
 use super::Info;
 use crate::proto::{Case, Out, Rng, Tier, Toks};
 use sage_core::database::{Builder, EnzymeBuilder, IndexedDatabase, Parameters};
@@ -48,7 +61,7 @@ use sage_core::ion_series::Kind;
 use std::collections::{HashMap, HashSet};
 use std::sync::{Arc, Mutex, OnceLock};
 
-pub const OPS: &[&str] = &["db8", "db8t"];
+pub const OPS: &[&str] = &["db8", "db8t", "chunkdb"];
 pub const INFO: Info = Info {
     rule: "db8: FASTA records assembled from a pool of tryptic blocks over a small residue alphabet (I/L isobars, \
            M/C/Q/S for modifications), so that peptides are shared between proteins and occur at protein N-terminus, \
@@ -68,7 +81,12 @@ pub const INFO: Info = Info {
            of 3-peptide proteins over a pool of m distinct peptides plus single-peptide proteins, so that every form \
            is produced by up to four digest groups (N-terminal / internal / C-terminal / whole protein) and by its \
            reversed decoy: the sorted pre-merge vector is runs of equal keys; sizes chosen so that it has about \
-           4096-, 4096+, 2x4096, 9k, 3x4096, 13k, 20k, 30k forms; built in pools of 1,2,3,4,5,6,8,16 threads. \
+           4096-, 4096+, 2x4096, 9k, 3x4096, 13k, 20k, 30k forms; built in pools of 1,2,3,4,5,6,8,16 threads. chunkdb (chunked \
+           prefilter path): proteins A_i and B_i = mirror images (reversal between the termini) of A_i's peptides plus a \
+           peptide shared with A_(i+1), so that with chunk sizes 1,2,3,n-1 the generated decoy of one chunk is a target \
+           of another; f32 residue sums of the two orders equal (main stream) or one ulp apart (separate stream); static \
+           ^ [ ] $ +229 or C +57, variable ^ $ [ ] M S; FASTA-supplied decoys in other chunks; random subset dropped; \
+           concatenation shuffled 6 ways; pools 1,2,4,8; chunk sizes 1,2,3,n-1,n,n+1 compared when there are no decoys. \
            non-trivial = at least two database entries and at least one entry with >= 2 proteins or >= 2 merged \
            sources; distinct by request line",
     serial: true,
@@ -448,7 +466,122 @@ fn exec_threads(t: &mut Toks) -> Option<String> {
     Some(o.finish())
 }
 
+/// the prefilter path: per-chunk builds, subset, arbitrary concatenation order, reorder, index
+fn chunk_build(p: &Parameters, recs: &[(String, String)], k: usize, seed: u64, drop: bool, order: usize) -> IndexedDatabase {
+    let fasta = Fasta::parse(fasta_text(recs), &p.decoy_tag, p.generate_decoys);
+    let mut all: Vec<Peptide> = Vec::new();
+    for (c, chunk) in fasta.iter_chunks(k).enumerate() {
+        let db = p.clone().build(chunk);
+        for (i, q) in db.peptides.iter().enumerate() {
+            if drop && (7 * i + 3 * c + seed as usize) % 4 == 0 {
+                continue;
+            }
+            all.push(q.clone());
+        }
+    }
+    match order {
+        0 => Rng::new(seed).shuffle(&mut all),
+        1 => {}
+        2 => all.reverse(),
+        j => Rng::new(seed.wrapping_add(j as u64 * 7919)).shuffle(&mut all),
+    }
+    match std::env::var("VERIF_C08_SIM").ok().as_deref() {
+        // debugging aid only: local re-implementations of two seeded changes, to evaluate the generator
+        Some(m @ ("H7" | "G8")) => sim_reorder(&mut all, m == "H7"),
+        _ => Parameters::reorder_peptides(&mut all),
+    }
+    p.clone().build_from_peptides(all)
+}
+
+/// `reorder_peptides` with (h7) `remove.decoy == keep.decoy` added to the merge test, or (g8) the decoy flag as a
+/// last sort key and no `keep.decoy &= remove.decoy` — used only under VERIF_C08_SIM
+fn sim_reorder(v: &mut Vec<Peptide>, h7: bool) {
+    v.sort_unstable_by(|a, b| {
+        let o = a.monoisotopic.total_cmp(&b.monoisotopic).then_with(|| a.initial_sort(b));
+        if h7 { o } else { o.then_with(|| a.decoy.cmp(&b.decoy)) }
+    });
+    v.dedup_by(|remove, keep| {
+        if remove.monoisotopic == keep.monoisotopic
+            && remove.sequence == keep.sequence
+            && remove.modifications == keep.modifications
+            && remove.nterm == keep.nterm
+            && remove.cterm == keep.cterm
+            && (!h7 || remove.decoy == keep.decoy)
+        {
+            keep.proteins.extend(remove.proteins.iter().cloned());
+            if h7 {
+                keep.decoy &= remove.decoy;
+            }
+            keep.semi_enzymatic &= remove.semi_enzymatic;
+            keep.missed_cleavages = keep.missed_cleavages.min(remove.missed_cleavages);
+            keep.position = keep.position.min(remove.position);
+            true
+        } else {
+            false
+        }
+    });
+    for q in v.iter_mut() {
+        q.proteins.sort_unstable();
+        q.proteins.dedup();
+    }
+}
+
+fn exec_chunks(t: &mut Toks) -> Option<String> {
+    let k = t.usize()?;
+    let seed = t.tok()?.parse::<u64>().ok()?;
+    let drop = t.bool()?;
+    let kfree = t.bool()?;
+    let r = read_req(t)?;
+    let p = parameters(&r);
+    let base = pool(4).install(|| content(&chunk_build(&p, &r.recs, k, seed, drop, 0)));
+    let mut o = Out::new();
+    o.raw("ok").n(base.npep).raw(&base.peps);
+    o.raw("F").n(base.frags.len());
+    if r.frag {
+        for (i, m) in &base.frags {
+            o.n(*i).n(*m);
+        }
+    }
+    let mut sdiff = 0;
+    let orders = [1usize, 2, 3, 4, 5];
+    for &ord in &orders {
+        let c = pool(4).install(|| content(&chunk_build(&p, &r.recs, k, seed, drop, ord)));
+        if !c.same(&base) {
+            sdiff += 1;
+        }
+    }
+    o.raw("shuf").n(orders.len()).n(sdiff);
+    let pools = [1usize, 2, 4, 8];
+    let mut tdiff = 0;
+    for &n in &pools {
+        let c = pool(n).install(|| content(&chunk_build(&p, &r.recs, k, seed, drop, 0)));
+        if !c.same(&base) {
+            tdiff += 1;
+        }
+    }
+    o.raw("pool").n(pools.len()).n(tdiff);
+    let (mut nk, mut kdiff) = (0, 0);
+    if kfree && !drop {
+        let n = Fasta::parse(fasta_text(&r.recs), &p.decoy_tag, p.generate_decoys).targets.len();
+        let mut ks = vec![1usize, 2, 3, n.saturating_sub(1).max(1), n.max(1), n + 1];
+        ks.sort();
+        ks.dedup();
+        for &kk in &ks {
+            let c = pool(4).install(|| content(&chunk_build(&p, &r.recs, kk, seed, false, 0)));
+            nk += 1;
+            if !c.same(&base) {
+                kdiff += 1;
+            }
+        }
+    }
+    o.raw("ksz").n(nk).n(kdiff);
+    Some(o.finish())
+}
+
 pub fn exec(op: &str, t: &mut Toks) -> Option<String> {
+    if op == "chunkdb" {
+        return exec_chunks(t);
+    }
     if op == "db8t" {
         return exec_threads(t);
     }
@@ -978,6 +1111,217 @@ fn emit_threads(emit: &mut dyn FnMut(Case), r: &Req, tags: &[&'static str]) {
     emit(c);
 }
 
+// ------------------------------------------------------------------------------------------ chunked prefilter stream
+
+fn f32_sum(seq: &[u8]) -> f32 {
+    let mut m = sage_core::mass::H2O;
+    for c in seq {
+        m += sage_core::mass::monoisotopic(*c);
+    }
+    m
+}
+
+/// reversal between the termini (what `Peptide::reverse` does to a sequence)
+fn mirror(q: &str) -> String {
+    let mut v: Vec<u8> = q.bytes().collect();
+    let n = v.len();
+    if n > 3 {
+        v[1..n - 1].reverse();
+    }
+    String::from_utf8(v).unwrap()
+}
+
+/// a tryptic peptide that differs from its mirror image; `equal`: the f32 residue sums of the two orders have
+/// the same bits (then a generated decoy and the mirror-image target of another chunk are merged), or differ
+/// (one ulp: they are not merged — known finding)
+fn mirror_peptide(rng: &mut Rng, equal: bool) -> String {
+    const AA: &[u8] = b"ACDEFGHILMNQSTVWY";
+    loop {
+        let n = rng.range(6, 9) as usize;
+        let mut v: Vec<u8> = (0..n - 1).map(|_| *rng.pick(AA)).collect();
+        v.push(if rng.chance(1, 2) { b'K' } else { b'R' });
+        let q = String::from_utf8(v).unwrap();
+        let m = mirror(&q);
+        if m == q {
+            continue;
+        }
+        if (f32_sum(q.as_bytes()).to_bits() == f32_sum(m.as_bytes()).to_bits()) == equal {
+            return q;
+        }
+    }
+}
+
+struct ChunkCase {
+    k: usize,
+    seed: u64,
+    drop: bool,
+    kfree: bool,
+    r: Req,
+}
+
+fn write_chunk(c: &ChunkCase) -> String {
+    let body = write_req(&c.r);
+    let mut o = Out::new();
+    o.raw("chunkdb").n(c.k).n(c.seed).b(c.drop).b(c.kfree);
+    o.raw(body.strip_prefix("db8 ").unwrap());
+    o.finish()
+}
+
+fn emit_chunk(emit: &mut dyn FnMut(Case), c: &ChunkCase, tags: &[&'static str]) {
+    let mut case = Case::new(write_chunk(c)).tag("chunked_prefilter_stream");
+    for t in tags {
+        case = case.tag(t);
+    }
+    let n = c.r.recs.len();
+    case = case.tag_if(c.k == 1, "chunk_size_1").tag_if(c.k >= n, "chunk_size_ge_n").tag_if(c.k + 1 == n, "chunk_size_n_minus_1");
+    case = case.tag_if(c.drop, "subset_dropped").tag_if(c.kfree, "chunk_size_independence_checked");
+    case = case.tag_if(c.r.gen, "generated_decoys").tag_if(!c.r.gen, "fasta_decoys_or_none");
+    case = case.tag_if(!c.r.statics.is_empty(), "static_mods").tag_if(!c.r.vars.is_empty(), "variable_mods");
+    emit(case);
+}
+
+fn chunk_base(recs: Vec<(String, String)>) -> Req {
+    Req {
+        mode: 0,
+        pseed: 1,
+        nperm: 0,
+        gen: true,
+        tag: s("rev_"),
+        mc: 0,
+        min_len: 5,
+        max_len: 50,
+        cleave: s("KR"),
+        restrict: Some(b'P'),
+        c_terminal: true,
+        semi: false,
+        lo: 100.0,
+        hi: 6000.0,
+        max_var: 2,
+        vars: vec![],
+        statics: vec![],
+        kinds: 0b010010,
+        min_ion: 0,
+        bucket: 4,
+        frag: true,
+        recs,
+    }
+}
+
+/// proteins A_0..A_{h-1} (2-3 peptides each) and B_0..B_{h-1}: B_i holds the mirror images of the peptides of
+/// A_i (so the generated decoys of A_i are the targets of B_i and vice versa) plus a peptide shared verbatim with
+/// A_{i+1}. Order A_0.., B_0..: with chunk sizes < h every mirror pair is split between chunks.
+fn mirror_fasta(rng: &mut Rng, h: usize, equal: bool) -> Vec<(String, String)> {
+    let a: Vec<Vec<String>> = (0..h).map(|_| (0..rng.range(2, 3)).map(|_| mirror_peptide(rng, equal)).collect()).collect();
+    let mut recs: Vec<(String, String)> = Vec::new();
+    for (i, ps) in a.iter().enumerate() {
+        recs.push((format!("A{}", i), ps.concat()));
+    }
+    for (i, ps) in a.iter().enumerate() {
+        let mut q: String = ps.iter().rev().map(|x| mirror(x)).collect();
+        q.push_str(&a[(i + 1) % h][0]);
+        recs.push((format!("B{}", i), q));
+    }
+    recs
+}
+
+fn pick_k(rng: &mut Rng, n: usize) -> usize {
+    *rng.pick(&[1usize, 1, 2, 2, 3, n.saturating_sub(1).max(1), n, n + 1])
+}
+
+fn gen_chunked(rng: &mut Rng, thorough: bool, emit: &mut dyn FnMut(Case)) {
+    let hx = |v: Vec<(&str, &str)>| -> Vec<(String, String)> { v.into_iter().map(|(a, q)| (s(a), s(q))).collect() };
+    // directed: mirror-image targets in different chunks (the generated decoy of one IS the other target)
+    for k in [1usize, 2, 3] {
+        let r = chunk_base(hx(vec![("P1", "ACDEFKGGGGGK"), ("P2", "AFEDCKSSSSSK"), ("P3", "GGGGGKLLLLLK")]));
+        emit_chunk(emit, &ChunkCase { k, seed: 7, drop: false, kfree: false, r }, &["directed", "mirror_targets_across_chunks"]);
+    }
+    // ... with a static N-terminal modification (every form has nterm = Some: the comparator answers Less both ways)
+    for (k, key) in [(1usize, "^"), (2, "^"), (1, "["), (1, "$"), (1, "]")] {
+        let mut r = chunk_base(hx(vec![("P1", "ACDEFKGGGGGK"), ("P2", "AFEDCKSSSSSK"), ("P3", "AFEDCK")]));
+        r.statics = vec![(s(key), 229.16293)];
+        r.vars = vec![(s("^"), vec![42.010565]), (s("$"), vec![-0.984016])];
+        if key == "^" {
+            r.vars.remove(0);
+        }
+        if key == "$" {
+            r.vars.remove(1);
+        }
+        emit_chunk(emit, &ChunkCase { k, seed: 11, drop: false, kfree: false, r }, &["directed", "mirror_targets_terminal_static_mod"]);
+    }
+    // FASTA-supplied decoys: a tagged record in another chunk shares a peptide with a target
+    for k in [1usize, 2] {
+        let mut r = chunk_base(hx(vec![("T1", "AAAAAKCCCCCK"), ("T2", "LLLLLKSSSSSK"), ("rev_D1", "CCCCCKGGGGGK")]));
+        r.gen = false;
+        emit_chunk(emit, &ChunkCase { k, seed: 3, drop: false, kfree: false, r }, &["directed", "tagged_record_in_other_chunk"]);
+    }
+    // no decoys at all: every chunk size gives the unchunked database
+    let mut r = chunk_base(hx(vec![("P1", "AAAAAKCCCCCK"), ("P2", "CCCCCKGGGGGK"), ("P3", "GGGGGKAAAAAK"), ("P4", "CCCCCK")]));
+    r.gen = false;
+    r.vars = vec![(s("["), vec![42.010565]), (s("]"), vec![14.01565])];
+    emit_chunk(emit, &ChunkCase { k: 2, seed: 5, drop: false, kfree: true, r }, &["directed", "no_decoys"]);
+    // chunks(0) panics; a chunk without any peptide panics (trivial classes)
+    let r = chunk_base(hx(vec![("P1", "AAAAAKCCCCCK")]));
+    emit(Case::new(write_chunk(&ChunkCase { k: 0, seed: 1, drop: false, kfree: false, r })).tag("chunked_prefilter_stream").tag("chunk_size_0_panic").nontrivial(false));
+    // random
+    let n_rand = if thorough { 300 } else { 28 };
+    for _ in 0..n_rand {
+        let h = rng.range(2, 4) as usize;
+        let mut r = chunk_base(mirror_fasta(rng, h, true));
+        let n0 = r.recs.len();
+        match rng.below(4) {
+            0 => {}
+            1 => r.statics = vec![(s("^"), 229.16293)],
+            2 => r.statics = vec![(s(*rng.pick(&["[", "]", "$"])), 229.16293)],
+            _ => r.statics = vec![(s("C"), 57.021465)],
+        }
+        match rng.below(5) {
+            0 => {}
+            1 => r.vars = vec![(s("^"), vec![42.010565])],
+            2 => r.vars = vec![(s("$"), vec![-0.984016]), (s("M"), vec![15.9949])],
+            3 => r.vars = vec![(s("["), vec![42.010565]), (s("]"), vec![14.01565])],
+            _ => r.vars = vec![(s("^"), vec![42.010565]), (s("S"), vec![79.96633])],
+        }
+        r.vars.retain(|(k, _)| !r.statics.iter().any(|(k2, _)| k2 == k));
+        r.max_var = rng.range(1, 2) as usize;
+        r.mc = rng.below(2) as u8;
+        let mut tags: Vec<&'static str> = vec!["mirror_targets_across_chunks"];
+        match rng.below(4) {
+            0 => {
+                // FASTA-supplied decoys: tagged copies / mirrors of some records, appended (other chunks)
+                r.gen = false;
+                for i in 0..n0 {
+                    if rng.chance(1, 2) {
+                        let (a, q) = r.recs[i].clone();
+                        let q2 = if rng.chance(1, 2) { q } else { q.split_inclusive(|c| c == 'K' || c == 'R').map(mirror).collect() };
+                        r.recs.push((format!("rev_{}", a), q2));
+                    }
+                }
+                tags.push("tagged_records_in_other_chunks");
+            }
+            1 => {
+                r.gen = false;
+                tags.push("no_decoys");
+            }
+            _ => {}
+        }
+        let n = r.recs.len();
+        let k = pick_k(rng, n);
+        let drop = rng.chance(1, 3);
+        let has_tagged = r.recs.iter().any(|(a, _)| a.contains("rev_"));
+        let kfree = !r.gen && !has_tagged && !drop;
+        let c = ChunkCase { k, seed: rng.next() % 1000, drop, kfree, r };
+        emit_chunk(emit, &c, &tags);
+    }
+    // separate stream (known finding): mirror pairs whose f32 residue sums differ in the last bit
+    let r = chunk_base(hx(vec![("P1", "LEQSMDEK"), ("P2", "LEDMSQEK")]));
+    emit_chunk(emit, &ChunkCase { k: 1, seed: 1, drop: false, kfree: false, r }, &["mirror_sums_differ_stream", "directed"]);
+    for _ in 0..(if thorough { 20 } else { 3 }) {
+        let r = chunk_base(mirror_fasta(rng, 2, false));
+        let c = ChunkCase { k: rng.range(1, 2) as usize, seed: rng.next() % 1000, drop: false, kfree: false, r };
+        emit_chunk(emit, &c, &["mirror_sums_differ_stream"]);
+    }
+}
+
 pub fn gen(rng: &mut Rng, tier: Tier, emit: &mut dyn FnMut(Case)) {
     let thorough = tier == Tier::Thorough;
     directed(emit);
@@ -1067,6 +1411,7 @@ pub fn gen(rng: &mut Rng, tier: Tier, emit: &mut dyn FnMut(Case)) {
         let r = dense_req(rng, m);
         emit_threads(emit, &r, &[tag]);
     }
+    gen_chunked(rng, thorough, emit);
     // separate stream: FASTA-supplied decoys sharing peptides with targets, strict protein-listing clause
     directed_decoy_listing(emit);
     let n_dl = if thorough { 40 } else { 6 };
